@@ -15,8 +15,10 @@ def main():
     res = {}
     try:
         for pid in pids:
+            env = dict(os.environ)
+            env.setdefault("VERIF_EVIDENCE", "/var/tmp/verif-evidence-seeded")   # keep evidence/ for runs on the real tree
             p = subprocess.run(["python3", os.path.join(os.path.dirname(__file__), "check.py"), pid, "--tier", tier],
-                               capture_output=True, text=True)
+                               capture_output=True, text=True, env=env)
             res[pid] = p.returncode
             tail = [l for l in p.stdout.splitlines() if l.startswith(("VIOLATION", "PASS", "FAIL", "INCONCLUSIVE", "KNOWN"))]
             print(pid, "rc=%d" % p.returncode, " | ".join(tail[:3])[:400])
